@@ -3,6 +3,8 @@ use crate::common::{Ctx, Report};
 use serde_json::Value;
 
 pub mod c04;
+pub mod c09a;
+pub mod c20;
 pub mod stateful;
 use stateful::Target;
 
@@ -14,6 +16,8 @@ pub fn run(ctx: &Ctx) -> Option<Report> {
         "C17" => Some(stateful::run_target(ctx, Target::C17)),
         "C03" => Some(stateful::run_target(ctx, Target::C03)),
         "C04" => Some(c04::run(ctx)),
+        "C09" => Some(c09a::run(ctx)),
+        "C20" => Some(c20::run(ctx)),
         "C06" => Some(stateful::run_target(ctx, Target::C06)),
         _ => None,
     }
@@ -27,6 +31,8 @@ pub fn replay(ctx: &Ctx, case: &Value) -> Option<Report> {
         "C17" => Some(stateful::replay_target(ctx, Target::C17, case)),
         "C03" => Some(stateful::replay_target(ctx, Target::C03, case)),
         "C04" => Some(c04::replay(ctx, case)),
+        "C09" => Some(c09a::replay(ctx, case)),
+        "C20" => Some(c20::replay(ctx, case)),
         "C06" => Some(stateful::replay_target(ctx, Target::C06, case)),
         _ => None,
     }
